@@ -560,6 +560,9 @@ def check(ctx):
     for cfgname in ctx.configs(quick=('base',), thorough=('base', 'wire', 'nostd')):
         f = ctx.facts(cfgname)
         rep.cur_config = cfgname
+        from . import common as _common
+        _common.check_frame(f, rep, 'C08-R0')
+        _common.check_derives(f, rep, 'C08-R0')
         eff = Effects(f)
         sites = notif_sites(ctx, f)
         r1_sites(ctx, f, rep, sites)
